@@ -7,6 +7,9 @@
 /* general form used where the content of the block does not matter to the obligations (gds_info):
  * a fresh block whose content is unspecified; the old block is released */
 void *realloc(void *ptr, size_t size) {
+    /* a request beyond any address space is a defect of the caller (it can only fail or be a wrapped size) */
+    __CPROVER_assert(size < ((size_t)1 << 47), "allocation size is not a wrapped-around / absurd value");
+    __CPROVER_assume(size < ((size_t)1 << 47));
     void *n = malloc(size);
     __CPROVER_assume(n != NULL);
     if (ptr != NULL) free(ptr);
